@@ -5,6 +5,7 @@ import (
 	"go/ast"
 	"go/token"
 	"go/types"
+	"hash/fnv"
 	"regexp"
 	"sort"
 	"strings"
@@ -230,7 +231,9 @@ func (c *Ctx) checkFormulas() {
 			}
 			run.Sample(map[string]string{"obligation": "value(" + site + ") = " + sp.Doc, "verdict": fmt.Sprint(ok)})
 			if !ok {
-				run.Violate(report.Finding{Rule: "formula", Site: site, Detail: short(sym.CanonString(got), 160), Pos: c.P.Pos(fi.Decl.Pos()),
+				fh := fnv.New32a()
+				fh.Write([]byte(sym.CanonString(got)))
+				run.Violate(report.Finding{Rule: "formula", Site: site, Detail: fmt.Sprintf("%s #%08x", short(sym.CanonString(got), 140), fh.Sum32()), Pos: c.P.Pos(fi.Decl.Pos()),
 					Message: fmt.Sprintf("the value computed is not the documented formula (%s). computed: %s ; documented: %s", sp.Doc, short(sym.CanonString(got), 300), short(sym.CanonString(want), 300))})
 			}
 		}
@@ -387,6 +390,7 @@ func (c *Ctx) checkRecurrences() {
 		sort.Strings(ks)
 		okAll := true
 		var msg string
+		allMsgs := fnv.New32a() // every mismatch enters the finding's key
 		total := 1
 		for range ks {
 			total *= 3
@@ -465,11 +469,12 @@ func (c *Ctx) checkRecurrences() {
 					o = sym.CanonString(gotOut)
 				}
 				msg = fmt.Sprintf("when %s: remembered value becomes %s and %s is emitted; documented: %s and %s", strings.Join(desc, ", "), sym.CanonString(gotUpd), o, sym.CanonString(wantUpd), sym.CanonString(want.out))
+				allMsgs.Write([]byte(msg))
 			}
 		}
 		run.Oblige(okAll)
 		if !okAll {
-			c.violate("formula/recurrence", site, short(msg, 120), fi.Decl.Pos(), "the recurrence is not the documented one ("+sp.Doc+"): "+msg)
+			c.violate("formula/recurrence", site, fmt.Sprintf("%s #%08x", short(msg, 100), allMsgs.Sum32()), fi.Decl.Pos(), "the recurrence is not the documented one ("+sp.Doc+"): "+msg)
 		}
 	}
 	run.Floor("recurrences", 7)
